@@ -29,6 +29,7 @@ ASSUMPTIONS = [
 SOFTS = ["", "VRP V200R001C00SPC700", "Cumulus Linux 5.4", "EOS 4.29", "SONiC x"]
 _DB = None
 _SYN = {}
+_SHARED = None
 
 
 def db():
@@ -206,6 +207,16 @@ def check(case):
             raise Violation("rulebook-does-not-load", f"model {model!r} soft {soft!r}: {type(e).__name__}: {e}"[:500], det)
     if canon(rbs[0]) != canon(rbs[1]):
         raise Violation("rulebook-not-deterministic", f"model {model!r}: two fresh providers give different rulebooks", det)
+    # a long-lived provider (one per process, it has served every earlier model of this shard) must give the same rulebook
+    global _SHARED
+    if _SHARED is None:
+        _SHARED = DefaultRulebookProvider()
+    try:
+        shared = _SHARED.get_rulebook(HardwareView(model, soft))
+    except Exception as e:
+        raise Violation("rulebook-does-not-load", f"long-lived provider, model {model!r}: {type(e).__name__}: {e}"[:400], det)
+    if canon(shared) != canon(rbs[0]):
+        raise Violation("rulebook-not-deterministic", f"model {model!r}: a provider that served other models before gives a different rulebook than a fresh one", det)
     for part in ("patching", "ordering", "deploying"):
         if part not in rbs[0]:
             raise Violation("rulebook-does-not-load", f"{part} missing", det)
